@@ -1,12 +1,13 @@
 // Native (cfg verif_replay) witness search for C07 -- NOT proof.  When a panic-freedom obligation of a
 // function under contract fails (a reachable todo!(), a failing unwrap()), look for a concrete source text that
-// makes the real interpreter panic: a list of boundary literals plus every text up to length 4 over a
+// makes the real interpreter panic: a list of boundary programs plus every text up to length 4 over a
 // 20-character alphabet, each evaluated on one interpreter under catch_unwind.
 
 const ALPHABET: [char; 20] = ['(', ')', '.', '\'', '"', '#', '\\', '|', ';', 'a', '1', '0', '9', '/', 'e', '+', '-', ' ', '\n', 't'];
-// (nested parameter lists such as ((lambda ((a) b) a) 1 2) are deliberately NOT in this list: they reach
-//  ParameterFormals::as_name, a function outside every unit, see DESIGN.md C07 "known gap")
-const SEEDS: [&str; 14] = [
+// (nested parameter lists reached ParameterFormals::as_name's unreachable!() until fix aaeb221; they are probed since)
+const SEEDS: [&str; 20] = [
+    "((lambda ((a) b) a) 1 2)", "(define (f (a) b) a) (f 1 2)", "((lambda ((a . b)) a) 1)", "((lambda (a (b c)) a) 1 2)", "((lambda (a ()) a) 1 2)",
+    "(define (g . (a)) a) (g 1)",
     "(a . b)", "'(a . b)", "(quote (1 . 2))", "1/", "1/0", "99999999999", "-99999999999", "1/99999999999", "1e", "1.e", "1e+",
     "(/ -2147483648 -1)", "(abs -2147483648)", "(if . 1)",
 ];
@@ -50,7 +51,7 @@ fn verif_native_panic_probe() {
         }
     }
     if bad.is_empty() {
-        println!("VERIF-NATIVE: ok {} source texts (14 boundary literals + every text of length <= 4 over 20 characters): no panic", n);
+        println!("VERIF-NATIVE: ok {} source texts (20 boundary programs + every text of length <= 4 over 20 characters): no panic", n);
     } else {
         println!("VERIF-NATIVE: disagree the interpreter PANICS on: {}", bad.join(" ; "));
     }
